@@ -11,75 +11,75 @@ CHECKS = {
     "C01": dict(
         text="Runtime monitoring: every verify_signable outcome on thousands of seeded, stratified hostile envelopes is compared "
         "with an independent reference threshold model (pure-Python RFC 8032 verifier over a hand-written canonical serializer); a "
-        "primitive probe additionally watches which bytes/keys reach the ed25519 primitive. Held on the executions observed, not proved.",
-        technique="boundary recorder + reference-model oracle + primitive probe on the real code",
+        "primitive probe additionally watches which bytes/keys reach the ed25519 primitive. Held on the executions observed, not proved. Also run: related neighbours right after an acceptance, in-place histories, the same call while standard output fails (soundness direction only), thread schedules with yield injection, unrelated library activity between judged cases, and a rotation of interpreter configurations.",
+        technique="boundary recorder + reference-model oracle + primitive probe on the real code + history / schedule / failing-stdout workloads",
         ref="4/C01",
     ),
     "C02": dict(
         text="Runtime monitoring of completeness: envelopes the reference model accepts (with junk entries, permutations, foreign "
         "conforming signers, library-made signatures, shipped fixtures) are run through the real verifiers under several stdout "
-        "encodings and pre-import sets; any raise is a violation.",
+        "encodings and pre-import sets; any raise is a violation. Includes ten-or-more-signer envelopes, entry permutations and thread schedules; unrelated library activity between judged cases.",
         technique="boundary recorder + reference-model oracle + configuration matrix (stdout encoding, pre-imports)",
         ref="4/C02",
     ),
     "C03": dict(
         text="Runtime monitoring: verify_root outcomes on (trusted, offered) root pairs stratified by the rows of the rule's truth table "
-        "are compared with a reference root-update model (both directions: unsound accept and false reject).",
-        technique="boundary recorder + reference root-chain model over stratified pairs",
+        "are compared with a reference root-update model (both directions: unsound accept and false reject). Also: forged neighbours re-using just-verified entries, the same pairs while standard output fails (soundness only), concurrent chaining of different roots.",
+        technique="boundary recorder + reference root-chain model over stratified pairs + schedule / failing-stdout workloads",
         ref="4/C03",
     ),
     "C04": dict(
         text="Runtime monitoring over histories: a simulated client and the reference model process the same offer sequences in lock-step; "
         "an offline checker over the recorded history asserts lock-step verdicts, the chain invariant, that no adversarial offer is "
-        "accepted, and history independence (fresh module instance, shuffled and repeated re-evaluation).",
+        "accepted, and history independence (fresh module instance, shuffled and repeated re-evaluation). Offer classes include replayed signatures, draft thresholds, superset take-over, raw-shaped entries, decoy roles and one insider key filed under several spellings; persistence by library write, atomic replace and external writers; command-line verdicts.",
         technique="recorded-history checker (lock-step reference model, chain invariant, fresh-instance differential)",
         ref="4/C04",
     ),
     "C05": dict(
         text="Runtime monitoring: verify_delegation outcomes on multi-role trusted metadata and adversarial signer strategies are compared "
-        "with a reference delegation model; error class asserted for undelegated roles.",
-        technique="boundary recorder + reference delegation model over stratified cases",
+        "with a reference delegation model; error class asserted for undelegated roles. Also: in-place histories of one trusted object, entries re-filed under another role's keys after an acceptance, stale well-formed entries under listed keys, failing standard output, concurrent verification of different roles.",
+        technique="boundary recorder + reference delegation model over stratified cases + history / schedule workloads",
         ref="4/C05",
     ),
     "C06": dict(
         text="Runtime monitoring with metamorphic oracles on the real verifiers: type-confusion bases under 14 manipulations of the unsigned "
-        "signature map; strip invariance on every acceptance and junk-augmentation invariance on every rejection of all three verifiers.",
+        "signature map; strip invariance on every acceptance and junk-augmentation invariance on every rejection of all three verifiers. Type-confusion offers are also made as the first contact of the process while standard output fails, with never-seen specification versions.",
         technique="metamorphic monitors (strip / junk-augmentation invariance) + reference model on the real verifiers",
         ref="4/C06",
     ),
     "C07": dict(
         text="Runtime monitoring: canonserialize output compared byte-for-byte with a hand-written reference serializer on hostile values; "
         "order independence, parse round trip, fix point, global collision table; fixed-corpus digests compared across a matrix of "
-        "interpreter configurations (hash seed, locale, TZ, cwd, -O, -I, pre-imports); primitive probes on signer and verifier bytes.",
-        technique="reference-serializer oracle + metamorphic invariants + cross-process configuration differential",
+        "interpreter configurations (hash seed, locale, TZ, cwd, -O, -I, pre-imports); primitive probes on signer and verifier bytes. Several threads serialising one shared, unsorted object must all obtain the reference bytes.",
+        technique="reference-serializer oracle + metamorphic invariants + cross-process configuration differential + shared-object schedule workload",
         ref="4/C07",
     ),
     "C08": dict(
         text="Runtime monitoring over file histories (write / load / sign in memory + write / sign_all_in_repodata / GnuPG-path signing): "
         "after each step file bytes equal the reference canonical bytes, loaded value equals the in-memory value, a fixed panel of "
-        "verification verdicts is unchanged, earlier entries are byte-identical and still count.",
+        "verification verdicts is unchanged, earlier entries are byte-identical and still count. Includes envelope-shaped values indexed by other spellings of a key, same-path overwrites, out-of-band replacement, a scripted interactive session.",
         technique="recorded file-history checker with reference serializer and verdict panel",
         ref="4/C08",
     ),
     "C09": dict(
         text="Runtime monitoring of sign-then-verify: after every sign_signable the envelope is compared with the exact expected envelope "
         "(RFC 8032 reference signature over reference canonical bytes), idempotence, all signing orders, threshold boundary t=k / k+1, "
-        "value-changing and value-preserving edits; sign-side primitive probe.",
-        technique="state assertions after each operation against reference signer/serializer + primitive probe",
+        "value-changing and value-preserving edits; sign-side primitive probe. Threads signing different envelopes with different keys, then sequential signing with the same key objects.",
+        technique="state assertions after each operation against reference signer/serializer + primitive probe + schedule workload",
         ref="4/C09",
     ),
     "C10": dict(
         text="Runtime monitoring of OpenPGP-mode verification against an RFC 4880 digest reference over payload/header/key/signature "
         "corruptions (single-bit sweeps, boundary shift, S+L), plus real GnuPG 2.2 signatures made through the library's own GPG signing "
-        "path (GnuPG-backed securesystemslib stand-in) and then corrupted.",
-        technique="reference-digest oracle + real GnuPG second signer + corruption sweeps",
+        "path (GnuPG-backed securesystemslib stand-in) and then corrupted. Threads verifying different (large) payloads at once, then the main thread again, each judged by the reference digest of its own arguments.",
+        technique="reference-digest oracle + real GnuPG second signer + corruption sweeps + schedule workload",
         ref="4/C10",
     ),
     "C11": dict(
         text="Runtime monitoring of repodata signing: output file bytes compared with the reference-computed expected document "
         "(deterministic ed25519), client-side verification of each artifact through a pkg_mgr delegation, cross-artifact rejection, "
-        "idempotence, serialize_and_sign call-count probe.",
-        technique="expected-document oracle (reference signer + serializer) + client-side verification monitor",
+        "idempotence, serialize_and_sign call-count probe. Histories with a failed earlier attempt on the same path; different files signed concurrently with different keys.",
+        technique="expected-document oracle (reference signer + serializer) + client-side verification monitor + history / schedule workloads",
         ref="4/C11",
     ),
     "C12": dict(
@@ -92,49 +92,49 @@ CHECKS = {
     "C13": dict(
         text="Runtime monitoring of error families: every public validator/verifier called with every palette value in every argument "
         "position and with single/double path mutations of valid arguments; outcome must be a return or a documented error family; "
-        "predicates return bool; sys.monitoring step budget for termination; error-class mapping on single-cause cases from the models.",
+        "predicates return bool; sys.monitoring step budget for termination; error-class mapping on single-cause cases from the models. Single-cause rejections are also offered while standard output fails: a rejection must stay a rejection.",
         technique="boundary recorder (exception class + raise site) over palette/mutation sweeps + sys.monitoring step budget",
         ref="4/C13",
     ),
     "C14": dict(
         text="Runtime monitoring: checkformat_delegating_metadata compared with a reference schema (ACCEPT/REJECT/GREY) on systematic "
-        "every-path mutations of fixtures, builder output and generated metadata; every accepted document pushed through the verifiers.",
-        technique="reference-schema oracle over systematic path mutations + push-through monitor",
+        "every-path mutations of fixtures, builder output and generated metadata; every accepted document pushed through the verifiers. Python-level documents with non-string mapping keys; repeat-after-reject; validators under threads.",
+        technique="reference-schema oracle over systematic path mutations + push-through monitor + schedule workload",
         ref="4/C14",
     ),
     "C15": dict(
         text="Runtime monitoring: leaf validators compared with ASCII regular-expression oracles on boundary-length strings over hostile "
-        "alphabets, non-strings, entry dictionaries over all key subsets, key lists; predicate/raiser agreement; one-spelling table.",
-        technique="regex oracle + predicate/raiser differential over systematic and random inputs",
+        "alphabets, non-strings, entry dictionaries over all key subsets, key lists; predicate/raiser agreement; one-spelling table. Siblings of a value right after it was accepted, repeat-after-reject, validators under threads.",
+        technique="regex oracle + predicate/raiser differential over systematic and random inputs + history / schedule workloads",
         ref="4/C15",
     ),
     "C16": dict(
         text="Runtime monitoring of the metadata builders: valid and corrupted argument tuples; returned metadata checked against the "
         "reference schema, the library checker, argument fidelity, default expiry window under three TZ values, and a builder-made "
-        "root chain verified by verify_root.",
-        technique="postcondition monitor on builder output (reference schema + checker + verifier) incl. TZ configurations",
+        "root chain verified by verify_root. Default times are bracketed by the clock within 2 s, also after rejected calls and a real pause, and under threads.",
+        technique="postcondition monitor on builder output (reference schema + checker + verifier) incl. TZ configurations + history / schedule workloads",
         ref="4/C16",
     ),
     "C17": dict(
         text="Runtime monitoring at the process boundary: each entry point (console script, python -m package, python -m cli module) is "
         "started as a real process on generated file pairs; exit status and contradiction-level output compared with the library's "
-        "in-process verdict; signing subcommands checked for exit status vs. actual effect.",
+        "in-process verdict; signing subcommands checked for exit status vs. actual effect. Sign-artifacts scenarios include re-signing after a hot-fix, planted own-key entries and key values with leading / trailing zeros; verify-metadata with a closed stdout pipe.",
         technique="process-boundary monitor (exit status, stdout) vs in-process verdict, all entry points",
         ref="4/C17",
     ),
     "C18": dict(
         category="fault_enumeration",
         text="Fault enumeration with source-free failpoints: for each document a census of executed library line events, then one run per "
-        "line event before the first write-mode open of the target and per call event between open and first write, with a fault "
-        "injected there; after each failed run the target file must be byte-identical; plus natural failures and an ordering invariant "
+        "line / call / callee-entry event before the first write-mode open of the target, and per serialisation-or-signing call between "
+        "open and first write, with a fault (exception class rotating over 16 classes incl. KeyError and KeyboardInterrupt) injected there; after each failed run the target file must be byte-identical; plus natural failures and an ordering invariant "
         "from the audit hook / file proxy on successful runs. Exhaustive per document over its executed lines.",
         technique="sys.monitoring failpoint enumeration + audit-hook / file-proxy ordering monitor",
         ref="4/C18",
     ),
     "C19": dict(
         text="Runtime monitoring: library key derivation, hex filing and signatures compared with an independent RFC 8032 implementation "
-        "per seed; conversion-graph random walks; equivalence laws; key files; malformed encodings.",
-        technique="reference RFC 8032 oracle + round-trip / law monitors",
+        "per seed; conversion-graph random walks; equivalence laws; key files; malformed encodings. Key rotation histories (other route, other spelling of the path, relative name after chdir), repeat-after-reject, the command line's hex key files, conversions under threads.",
+        technique="reference RFC 8032 oracle + round-trip / law monitors + history / schedule workloads",
         ref="4/C19",
     ),
 }
